@@ -3,6 +3,7 @@ with which bounds. Only bounds that ran clean on the unchanged tree are listed."
 
 W = {"workers": 14}
 LIT = "mvdan.cc/garble/internal/literals"
+CF = "mvdan.cc/garble/internal/ctrlflow"
 
 import gen
 
@@ -60,6 +61,20 @@ CHECKS = {
             {"harness": "H_C06_cache_kinds", "reach": ["hashed"], "bound": "arbitrary 32-byte garble action IDs"},
         ],
         "outside": ["cmd/go's use of the tool ID and GOCACHE", "-tags/-ldflags/source edits (covered by cmd/go's action IDs)", "-ldflags seen by -literals at compile time (acknowledged risk, transformer.go:45-57)", "alterToolVersion's exec of the real tool", "linker version stamp (internal/linker)"],
+    },
+    "C11": {
+        "level": "model_checking",
+        "level_text": "bounded symbolic model checking of the key material of control-flow flattening: the real xorHardening.Apply / delegateTableHardening.Apply / generateKeys run on symbolic Int31, Read, Perm and Intn draws, the emitted declaration, prologue and per-edge expressions are evaluated by symxeval, and the solver shows that every stored key equals its own compare key, differs from every other and is never zero; the trash-block guard of randomAlwaysFalseCond is shown false for all draws; directive integers are shown bounded",
+        "level_note": "trusted: gosx encoder, z3 5.1 (cvc5 fallback), symxeval as the semantics of the emitted Go; bounds: dispatchers of 1..3 (thorough 1..5) edges, at most one rejected key per run (draw budget), process-global draws fixed to their minimum (their nondeterminism is C03's subject); the SSA rewriting itself (flattening, splitting, junk, trash insertion, ssa2ast conversion) is outside this check",
+        "claim": "dispatcher keys after hardening are consistent, pairwise distinct and non-zero; trash blocks are unreachable by their guard; directive integers are bounded",
+        "opts": dict(W, second="cvc5"),
+        "runs": [
+            {"harness": "H_C11_xor_keys", "pkg": CF, "stubbed": True, "reach": ["hardened"], "bound_quick": "1..3 dispatcher edges; <=1 rejected key", "bound_thorough": "1..5 edges"},
+            {"harness": "H_C11_delegate_keys", "pkg": CF, "stubbed": True, "reach": ["hardened"], "bound_quick": "1..3 dispatcher edges; key size 8; <=1 rejected key", "bound_thorough": "1..5 edges"},
+            {"harness": "H_C11_always_false", "pkg": CF, "reach": ["cond"], "bound": "both Int31 draws and the candidate choice fully symbolic"},
+            {"harness": "H_C11_directive_int", "pkg": CF, "reach": ["parsed"], "bound_quick": "parameter text of 1..3 printable bytes", "bound_thorough": "1..4 bytes"},
+        ],
+        "outside": ["translation validation of the flattened/split/junk/trash SSA and of ssa2ast (needs go/ssa objects built inside the engine)", "range over non-ASCII strings and named results with recover (known defects per the property text, not reachable by these kernels)", "seeds/parameter grid"],
     },
     "C12": {
         "level": "model_checking",
